@@ -12,10 +12,15 @@ correspondence streams (real solver object vs Lean model, driver ops c05.*):
   interp : GeometricMultigrid.setup_interpolation (mode E).
 oracle on the real code: relative residual of op(A) x = b, shape and dtype of x.
 
-Excluded input classes (genuine defects of the unchanged tree, see corpus/defects/c05_*.py):
-  * SolverSparseLU with a real matrix and a complex right-hand side (TypeError)
-  * CG with a zero right-hand-side column (NaN), a column that converges exactly before the others (LinAlgError/NaN),
-    a real x0 for a complex system (UFuncTypeError)
+Input classes that were defects of the pinned tree and are REPAIRED in /repo (f06340d, 7a37cb6, 156f3c9) are generated and
+compared like any other: SolverSparseLU real matrix + complex rhs; CG with a zero rhs column / zero vector, with a column
+that converges exactly before the others, with a real x0 for a complex system (witnesses corpus/defects/c05_*.py).
+Still EXCLUDED (open defect, corpus/defects/c05_cg_sor_ilu_complex_rhs.py): CG with the SOR or ILU preconditioner, real sparse
+matrix and complex right-hand side (TypeError from SuperLU inside the preconditioner).
+  reuse  : ONE solver object per history, 2-5 update(A_i) calls (sub-classes alternate, sizes may change), solves with all
+           trans modes after EACH update: residual oracle against the CURRENT matrix + model comparison from the factors
+           read after each update (SolverDenseCholesky: whole update history sent to the model state machine).
+  cg-restart : complex Hermitian PD systems (n 4-8, dense and sparse), trans T/H, restart 1/2/3, maxit 1..5, tol 1e-12.
 """
 import warnings
 from fractions import Fraction
@@ -34,8 +39,9 @@ ASSUMPTIONS = [
     "scipy qr/lu/cholesky/ldl/solve_triangular/splu/spilu/np.linalg.inv enter as contracts; the contracts are checked "
     "numerically on every generated case (factor products, triangularity)",
     "CG convergence within maxit is observed, not proved (cg_correct_partial)",
-    "excluded defect classes: SparseLU real matrix + complex rhs; CG with zero rhs column / exactly converged column / "
-    "real x0 for complex system",
+    "CG iterates after an iteration at which exact arithmetic has an exactly-zero residual column are compared only for "
+    "the families whose float computation is exact there too (zero rhs column without x0, block-diagonal integer systems); "
+    "elsewhere rounding noise may legitimately keep an extra search direction (counted as boundary)",
 ]
 
 OP = {"N": lambda A: A, "T": lambda A: A.T, "H": lambda A: A.conj().T}
@@ -177,36 +183,54 @@ def applicable(kind, solver, Acplx):
     return True
 
 
-def build_direct(ctx, kind, solver, A, b, trans, cplx):
-    """update the real solver, read its factors, check the contract, build the model request.
+def build_direct(ctx, kind, solver, A, b, trans, cplx, obj=None, updated=False, ldl_flag=None):
+    """update the real solver (a fresh one, or `obj` when given: solver re-use; `updated`: obj.update(A) was already
+    called for this matrix), read its factors, check the contract, build the model request.
     returns (solver_object, request | None, note)"""
     S, _, _ = _sol()
+    if obj is not None:
+        class _Keep:   # constructor stand-in returning the existing object
+            def __init__(self, o):
+                self.o = o
+
+            def __call__(self, *a, **k):
+                return self.o
+        keep = _Keep(obj)
+        S = type("S", (), {nm: keep for nm in ("SolverDiagonal", "SolverDenseQR", "SolverDenseLU", "SolverDenseLDL",
+                                                "SolverDenseCholesky", "SolverSparseLU")})
     n = A.shape[0]
     Bq, k = enc_b(b, cplx)
     req = {"m": "c05.direct", "cplx": cplx, "n": n, "k": k, "trans": trans, "B": Bq}
     tolc = 1e-10 * max(1.0, np.linalg.norm(A))
     if solver == "diag":
         s = S.SolverDiagonal()
-        s.update(A)
+        if not updated:
+            s.update(A)
         req.update(solver="diag", diag=(qclist(np.asarray(s.diag).astype(complex)) if cplx else qlist(np.asarray(s.diag).astype(float))),
                    vec=bool(np.asarray(b).ndim == 1))
         ok = np.allclose(s.diag, np.diag(A))
     elif solver == "qr":
         s = S.SolverDenseQR()
-        s.update(A)
+        if not updated:
+            s.update(A)
         req.update(solver="qr", q=enc(s.q, cplx), r=enc(s.r, cplx))
         ok = (np.linalg.norm(s.q @ s.r - A) <= tolc and np.linalg.norm(s.q.conj().T @ s.q - np.eye(n)) <= 1e-12 * n
               and np.allclose(s.r, np.triu(s.r), atol=0))
     elif solver == "lu":
         s = S.SolverDenseLU()
-        s.update(A)
+        if not updated:
+            s.update(A)
         req.update(solver="lu", p=enc(s.p, cplx), l=enc(s.l, cplx), u=enc(s.u, cplx))
         ok = (np.linalg.norm(s.p @ s.l @ s.u - A) <= tolc and np.array_equal(s.p @ s.p.T, np.eye(n))
               and np.allclose(s.l, np.tril(s.l), atol=0) and np.allclose(s.u, np.triu(s.u), atol=0))
     elif solver == "ldl":
         s = S.SolverDenseLDL()
-        s.update(A)
-        req.update(solver="ldl", l=enc(s.l, cplx), d=enc(s.d, cplx), p=[int(v) for v in s.p], hermitian=None, A=enc(A, cplx))
+        # `hermitian` attribute BEFORE this update: None on a fresh object (update() detects it), else kept
+        flag_before = ldl_flag if updated else s.hermitian
+        if not updated:
+            s.update(A)
+        req.update(solver="ldl", l=enc(s.l, cplx), d=enc(s.d, cplx), p=[int(v) for v in s.p],
+                   hermitian=(None if flag_before is None else bool(flag_before)), A=enc(A, cplx))
         ld = s.l @ s.d @ (s.l.conj().T if s.hermitian else s.l.T)
         ok = np.linalg.norm(ld - A) <= tolc and sorted(int(v) for v in s.p) == list(range(n))
         ctx.branch("ldl_hermitian" if s.hermitian else "ldl_symmetric")
@@ -216,9 +240,10 @@ def build_direct(ctx, kind, solver, A, b, trans, cplx):
         ctx.branch("ldl_d_diagonal" if not np.any(offd != 0) else "ldl_d_blocks")
     elif solver == "chol":
         s = S.SolverDenseCholesky()
-        with warnings.catch_warnings():
-            warnings.simplefilter("ignore")
-            s.update(A)
+        if not updated:
+            with warnings.catch_warnings():
+                warnings.simplefilter("ignore")
+                s.update(A)
         if s.success:
             req.update(solver="chol", U=enc(s.U, cplx), A=enc(A, cplx))
             ok = np.linalg.norm(s.U.conj().T @ s.U - A) <= tolc and np.allclose(s.U, np.triu(s.U), atol=0)
@@ -235,12 +260,23 @@ def build_direct(ctx, kind, solver, A, b, trans, cplx):
                 return s, None, "boundary"
     elif solver == "sparselu":
         s = S.SolverSparseLU()
-        s.update(sps.csc_matrix(A))
-        req.update(solver="sparselu", A=enc(A, cplx))
+        if not updated:
+            s.update(sps.csc_matrix(A))
+        req.update(solver="sparselu", A=enc(A, cplx), iscomplexA=bool(np.iscomplexobj(A)),
+                   rhs_complex=bool(np.iscomplexobj(b)))
         ok = True
     else:
         raise ValueError(solver)
     return s, req, ("ok" if ok else "contract")
+
+
+def colres(A, b, x, trans):
+    """column-wise ||op(A) x - b|| / ||b|| (absolute for a zero column)"""
+    B = np.asarray(b).reshape(A.shape[0], -1)
+    X = np.asarray(x).reshape(A.shape[0], -1)
+    bn = np.linalg.norm(B, axis=0)
+    bn[bn == 0] = 1.0
+    return float(np.max(np.linalg.norm(OP[trans](A) @ X - B, axis=0) / bn))
 
 
 def oracle_solution(ctx, what, A, b, x, trans, cond, witness, tol=1e-9):
@@ -251,12 +287,13 @@ def oracle_solution(ctx, what, A, b, x, trans, cond, witness, tol=1e-9):
     elif x.dtype != np.result_type(A.dtype, np.asarray(b).dtype):
         bad = f"dtype {x.dtype} != {np.result_type(A.dtype, np.asarray(b).dtype)}"
     else:
-        r = np.linalg.norm(OP[trans](A) @ x - b) / np.linalg.norm(b)
+        r = colres(A, b, x, trans)
         if not r <= tol * max(cond, 1.0):
             bad = f"relative residual {r:.3e} (cond {cond:.2e})"
     if bad:
         w = dict(witness)
         w["observed"] = bad
+        w["expected"] = f"x of the shape/dtype of b with op_{trans}(A) x = b (relative residual <= {tol * max(cond, 1.0):.1e})"
         ctx.oracle_fail(f"{what}: {bad}", w)
         return False
     return True
@@ -277,8 +314,8 @@ def direct_cases(ctx):
                         for _ in range(reps):
                             n = rng.choice(sizes)
                             bcplx = rng.random() < 0.4
-                            if solver == "sparselu" and (not Acplx) and bcplx:
-                                bcplx = False   # excluded defect class (c05_sparselu_complex_rhs)
+                            if solver == "sparselu" and (not Acplx) and rng.random() < 0.5:
+                                bcplx = True    # repaired class: real factorisation, complex rhs
                             cases.append((kind, Acplx, solver, shape, trans, n, bcplx))
     return cases
 
@@ -380,45 +417,136 @@ def make_precond(ctx, kind, A, Asp, trans, cplx, rng):
     raise ValueError(kind)
 
 
-def run_cg(ctx):
+def hpd_complex(rng, n):
+    """complex Hermitian positive definite with a non-zero imaginary part (A^T = conj(A) != A)"""
+    for _ in range(200):
+        A = spd(rng, n, True)
+        if np.max(np.abs(A.imag)) > 0:
+            return A
+    raise RuntimeError("hpd_complex generator")
+
+
+def nz_cols(b):
+    if b.ndim == 2:
+        for j in range(b.shape[1]):
+            if not np.any(b[:, j]):
+                b[0, j] = 1
+    elif not np.any(b):
+        b[0] = 1
+    return b
+
+
+def cg_case_list(ctx):
+    """list of dicts: A b x0 trans pk restart tol mmax sparse exact family"""
     rng = ctx.rng
-    _, it, _ = _sol()
-    import pymoto
-    reqs, meta = [], []
-    ncase = 30 if ctx.quick else 150
+    cases = []
     kinds = ["id", "jacobi", "sor", "ilu"]
-    for ci in range(ncase):
+    # ---- random systems -------------------------------------------------------------------
+    for ci in range(24 if ctx.quick else 120):
         cplx = rng.random() < 0.35
         n = rng.choice([3, 4, 5])
         pk = kinds[ci % 4]
-        trans = rng.choice("NTH")
         shape = rng.choice(["n", "n1", "nk", "n2"])
         A = spd(rng, n, cplx)
-        if shape == "n2":
-            b = rint(rng, n, 2, -3, 3, cplx)
-            for j in range(2):
-                if not np.any(b[:, j]):
-                    b[0, j] = 1
-        else:
-            b = gen_rhs(rng, n, shape, cplx)
+        b = nz_cols(rint(rng, n, 2, -3, 3, cplx)) if shape == "n2" else gen_rhs(rng, n, shape, cplx)
         b = b.astype(complex if cplx else float)
-        Asp = sps.csc_matrix(A)
-        use_sparse = pk in ("sor", "ilu") or rng.random() < 0.5
-        P, spec = make_precond(ctx, pk, A, Asp, trans, cplx, rng)
         x0 = None
         if rng.random() < 0.4:
-            x0 = rint(rng, b.shape[0], 1 if b.ndim == 1 else b.shape[1], -2, 2, cplx).astype(b.dtype)
+            x0 = rint(rng, n, 1 if b.ndim == 1 else b.shape[1], -2, 2, cplx).astype(b.dtype)
             if b.ndim == 1:
                 x0 = x0[:, 0]
-        restart = rng.choice([50, 1, 2])
-        mmax = 3
-        Aarg = Asp if use_sparse else A
+        cases.append(dict(A=A, b=b, x0=x0, trans=rng.choice("NTH"), pk=pk, restart=rng.choice([50, 1, 2]), tol=1e-7, mmax=3,
+                          sparse=pk in ("sor", "ilu") or rng.random() < 0.5, exact=False, family="random"))
+    # ---- explicit restarts on complex Hermitian PD systems, trans T / H ---------------------
+    for ci in range(12 if ctx.quick else 48):
+        n = [4, 5, 6, 7, 8, 5][ci % 6]
+        A = hpd_complex(rng, n)
+        k = 1 if ci % 3 else 2
+        b = nz_cols(rint(rng, n, k, -3, 3, True)).astype(complex)
+        shape = "n2"
+        if k == 1 and ci % 2:
+            b = b[:, 0]
+            shape = "n"
+        x0 = None
+        if ci % 4 == 1:
+            x0 = rint(rng, n, k, -2, 2, True).astype(complex)
+            if b.ndim == 1:
+                x0 = x0[:, 0]
+        cases.append(dict(A=A, b=b, x0=x0, trans="TH"[ci % 2] if ci % 5 else "T", pk=["id", "jacobi"][(ci // 2) % 2],
+                          restart=[1, 2, 3][ci % 3], tol=1e-12, mmax=5, sparse=bool((ci // 3) % 2), exact=False,
+                          family="restart"))
+    # ---- repaired classes --------------------------------------------------------------------
+    for ci in range(6 if ctx.quick else 24):
+        cplx = ci % 3 == 2
+        n = rng.choice([3, 4, 5])
+        A = spd(rng, n, cplx)
+        b = nz_cols(rint(rng, n, 3, -3, 3, cplx)).astype(complex if cplx else float)
+        b[:, ci % 3] = 0                                   # zero right-hand-side column
+        x0 = None
+        if ci % 2:
+            x0 = rint(rng, n, 3, -2, 2, cplx).astype(b.dtype)
+        cases.append(dict(A=A, b=b, x0=x0, trans=rng.choice("NTH"), pk=kinds[ci % 4], restart=rng.choice([50, 1, 2]),
+                          tol=1e-7, mmax=3, sparse=True, exact=(x0 is None), family="zero_column"))
+    for ci in range(2):
+        n = 3 + ci
+        A = spd(rng, n, bool(ci))
+        b = np.zeros(n, dtype=complex if ci else float)    # zero vector
+        cases.append(dict(A=A, b=b, x0=None, trans="N", pk="id", restart=50, tol=1e-7, mmax=2, sparse=False, exact=True,
+                          family="zero_vector"))
+    for ci in range(6 if ctx.quick else 24):
+        # block-diagonal integer system: the first column (a multiple of e_0, pivot a power of two) converges exactly in
+        # the first iteration, the others need more iterations
+        cplx = ci % 3 == 2
+        n = rng.choice([3, 4, 5])
+        S_ = spd(rng, n - 1, cplx)
+        A = np.zeros((n, n), dtype=S_.dtype)
+        A[0, 0] = rng.choice([1, 2, 4, 8])
+        A[1:, 1:] = S_
+        k = rng.choice([2, 3])
+        b = nz_cols(rint(rng, n, k, -3, 3, cplx)).astype(A.dtype)
+        b[:, 0] = 0
+        b[0, 0] = rng.choice([-3, -1, 1, 2, 5])
+        for j in range(1, k):
+            if not np.any(b[1:, j]):
+                b[1, j] = 1
+        cases.append(dict(A=A, b=b, x0=None, trans=rng.choice("NTH"), pk=["id", "jacobi"][ci % 2], restart=rng.choice([50, 1, 2]),
+                          tol=1e-7, mmax=3, sparse=bool(ci % 2), exact=True, family="exact_column"))
+    for ci in range(4 if ctx.quick else 16):
+        n = rng.choice([3, 4, 5])
+        A = hpd_complex(rng, n)
+        shape = ["n", "n2"][ci % 2]
+        b = nz_cols(rint(rng, n, 2, -3, 3, ci % 4 < 2)).astype(complex if ci % 4 < 2 else float)
+        if shape == "n":
+            b = b[:, 0]
+        x0 = rint(rng, n, 2, -2, 2, False)                 # REAL initial guess for a complex system
+        x0 = x0[:, 0] if shape == "n" else x0
+        cases.append(dict(A=A, b=b, x0=x0, trans=rng.choice("NTH"), pk=["id", "jacobi"][ci % 2], restart=rng.choice([50, 2]),
+                          tol=1e-7, mmax=3, sparse=bool(ci % 2), exact=False, family="real_x0_complex"))
+    return cases
+
+
+def arr_repr(a):
+    return None if a is None else repr(np.asarray(a).tolist())
+
+
+def run_cg(ctx):
+    rng = ctx.rng
+    _, it, _ = _sol()
+    reqs, meta = [], []
+    for c in cg_case_list(ctx):
+        A, b, x0, trans, pk = c["A"], c["b"], c["x0"], c["trans"], c["pk"]
+        cplx = bool(np.iscomplexobj(A) or np.iscomplexobj(b) or (x0 is not None and np.iscomplexobj(x0)))
+        n = A.shape[0]
+        Asp = sps.csc_matrix(A)
+        P, spec = make_precond(ctx, pk, A.astype(complex) if cplx and pk == "ilu" and not np.iscomplexobj(A) else A,
+                               Asp, trans, cplx, rng)
+        Aarg = Asp if c["sparse"] else A
         iters = []
         err = None
-        for m in range(1, mmax + 1):
+        for m in range(1, c["mmax"] + 1):
             with warnings.catch_warnings():
                 warnings.simplefilter("ignore")
-                s = it.CG(Aarg, preconditioner=P, maxit=m, restart=restart)
+                s = it.CG(Aarg, preconditioner=P, maxit=m, restart=c["restart"], tol=c["tol"])
                 r = call_impl(s.solve, b.copy(), x0=None if x0 is None else x0.copy(), trans=trans)
             if r[0] != "ok":
                 err = r
@@ -426,56 +554,249 @@ def run_cg(ctx):
             iters.append(np.asarray(r[1]))
         Bq, k = enc_b(b, cplx)
         req = {"m": "c05.cg", "cplx": cplx, "n": n, "k": k, "A": enc(A, cplx), "b": Bq, "trans": trans,
-               "x0": None if x0 is None else enc_b(x0, cplx)[0], "precond": spec, "tol": q(Fraction(1, 10 ** 7)),
-               "maxit": mmax, "restart": restart, "zero_rtol": q(Fraction(1, 10 ** 15))}
-        case = {"precond": pk, "spec_w": spec.get("w"), "trans": trans, "shape": shape, "n": n, "cplx": cplx, "x0": x0 is not None,
-                "restart": restart, "sparse": use_sparse, "A": str(A.tolist()), "b": str(b.tolist()),
-                "x0v": None if x0 is None else str(x0.tolist())}
+               "x0": None if x0 is None else enc_b(x0, cplx)[0], "precond": spec, "tol": q(Fraction(c["tol"]).limit_denominator(10 ** 15)),
+               "maxit": c["mmax"], "restart": c["restart"], "zero_rtol": q(Fraction(1, 10 ** 15))}
+        wv = spec.get("w")
+        wv = None if wv is None else float(fr(wv[0] if isinstance(wv, list) else wv))
+        case = {"stream": "cg", "family": c["family"], "precond": pk, "w": wv, "trans": trans, "n": n, "cplx": cplx,
+                "x0": x0 is not None, "restart": c["restart"], "sparse": c["sparse"], "tol": c["tol"],
+                "A": arr_repr(A), "b": arr_repr(b), "x0v": arr_repr(x0)}
         # full run: the property oracle
         with warnings.catch_warnings():
             warnings.simplefilter("ignore")
-            s = it.CG(Aarg, preconditioner=P)
+            s = it.CG(Aarg, preconditioner=P, restart=c["restart"], tol=c["tol"], maxit=2000)
             rf = call_impl(s.solve, b.copy(), x0=None if x0 is None else x0.copy(), trans=trans)
         if rf[0] == "ok" and np.all(np.isfinite(rf[1])):
-            oracle_solution(ctx, f"CG[{pk}].solve(trans={trans})", A, b, rf[1], trans, 1.0, case, tol=1e-6)
-        elif err is None:
+            oracle_solution(ctx, f"CG[{pk}].solve(trans={trans}, restart={c['restart']})", A, b, rf[1], trans, 1.0, case,
+                            tol=max(1e-6, 10 * c["tol"]))
+        else:
             ctx.oracle_fail(f"CG[{pk}] full run failed: {rf[1:] if rf[0] != 'ok' else 'non-finite result'}", case)
-        ctx.branch(f"cg:{pk}:{'c' if cplx else 'r'}:{trans}")
-        ctx.branch(f"cg_shape:{shape}")
+        ctx.branch(f"cg:{c['family']}:{pk}:{'c' if cplx else 'r'}:{trans}")
+        ctx.branch(f"cg_restart:{c['restart']}")
         ctx.branch("cg_x0" if x0 is not None else "cg_nox0")
         reqs.append(req)
-        meta.append((case, iters, err, cplx, b))
+        meta.append((case, iters, err, cplx, b, c["exact"]))
     outs = ctx.model(reqs)
-    for (case, iters, err, cplx, b), o in zip(meta, outs):
+    for (case, iters, err, cplx, b, exact), o in zip(meta, outs):
         if "err" in o:
-            if o["err"] in ("NaN", "LinAlgError"):
-                # exact arithmetic hits 0/0 (a column converged exactly): excluded defect class, floats usually pass by
-                ctx.skipped_boundary += 1
-                ctx.branch("cg_model_breakdown_skipped")
-                continue
             ctx.disagree("cg", case, "ok" if err is None else err[1], o["err"], "model error")
             continue
         if err is not None:
             ctx.disagree("cg", case, err[1], "ok", "implementation raised: " + err[2])
             continue
         tr = o["ok"]["trace"]
+        rz = o["ok"]["rzero"]
         good = True
+        ncmp = 0
         for m, xm in enumerate(tr):
             if m >= len(iters):
+                break
+            if (not exact) and any(rz[:m]):
+                # exact arithmetic dropped an exactly-zero direction earlier; floats may keep a noise direction
+                ctx.skipped_boundary += 1
+                ctx.branch("cg_after_exact_zero_column_skipped")
                 break
             xmod = dec(xm, cplx)
             xi = iters[m].reshape(xmod.shape)
             sc = max(1.0, float(np.max(np.abs(xmod))))
+            ncmp += 1
             if not ctx.compare_close("cg-iterate", dict(case, iterate=m + 1), xi.flatten().tolist(), xmod.flatten().tolist(),
                                      rtol=1e-7, atol=1e-8, scale=sc):
                 good = False
                 break
+        if len(tr) == 0:
+            # converged before the first iteration (zero right-hand side / exact x0): x = x0 or 0
+            xmod = dec(o["ok"]["x"], cplx)
+            if iters:
+                ctx.compare_close("cg-iterate", dict(case, iterate=0), iters[0].reshape(xmod.shape).flatten().tolist(),
+                                  xmod.flatten().tolist(), rtol=1e-9, atol=1e-12)
         if good:
-            ctx.branch(f"cg_iterates_compared:{min(len(tr), len(iters))}")
-            if o["ok"]["converged"]:
-                ctx.branch("cg_model_converged_within_3")
-        ctx.sample({"stream": "cg", "case": {k: case[k] for k in ("precond", "trans", "shape", "n", "cplx", "x0", "restart")},
+            ctx.branch(f"cg_iterates_compared:{ncmp}")
+            if any(rz):
+                ctx.branch("cg_exact_zero_column_seen")
+        ctx.sample({"stream": "cg", "case": {k: case[k] for k in ("family", "precond", "trans", "n", "cplx", "x0", "restart")},
                     "model_relres": [float(fr(v)) for v in o["ok"]["relres"]]})
+
+
+# ------------------------------------------------------------------------------------------------
+# solver RE-USE: one object, several update(A_i)
+# ------------------------------------------------------------------------------------------------
+REUSE_KINDS = {
+    "diag": ["diag"],
+    "qr": ["gen", "tril", "hpd", "csym", "triu"],
+    "lu": ["gen", "hindef", "triu", "csym", "tril"],
+    "sparselu": ["gen", "hpd", "tril", "hindef"],
+    "chol": None,           # alternates failing / succeeding factorisations, see below
+    "ldl_h": ["hindef", "hpd", "hposdiag"],
+    "ldl_s": ["csym"],
+}
+
+
+def run_reuse(ctx):
+    rng = ctx.rng
+    S, it, ad = _sol()
+    import pymoto
+    reqs, meta = [], []
+    nhist = 1 if ctx.quick else 4
+
+    def solves_after_update(name, solver, s, A, kind, hist, ui, chol_updates=None, ldl_flag=None, model=True,
+                            cplx_rhs_ok=True, mats=None):
+        """all trans modes (random rhs shape each) on the object `s` whose LAST update was A"""
+        n = A.shape[0]
+        Acplx = bool(np.iscomplexobj(A))
+        for trans in "NTH":
+            shape = rng.choice(["n", "n1", "nk"])
+            bcplx = Acplx or (cplx_rhs_ok and rng.random() < 0.3)
+            b = gen_rhs(rng, n, shape, bcplx)
+            cplx = bool(Acplx or bcplx)
+            case = {"stream": "reuse", "solver": name, "history": hist, "update_index": ui, "kind": kind, "trans": trans,
+                    "shape": shape, "A": arr_repr(A), "b": arr_repr(b), "sparse": bool(getattr(s, "_c05_sparse", False)),
+                    "history_A": [arr_repr(M) for M in (mats or [A])]}
+            with warnings.catch_warnings():
+                warnings.simplefilter("ignore")
+                r = call_impl(s.solve, b.copy(), trans=trans)
+            if r[0] == "ok":
+                oracle_solution(ctx, f"re-used {type(s).__name__} after update #{ui + 1} (trans={trans})", A, b, r[1], trans,
+                                float(np.linalg.cond(A)), case, tol=1e-9 if not isinstance(s, it.CG) else 1e-6)
+            else:
+                ctx.oracle_fail(f"re-used {type(s).__name__} after update #{ui + 1} raised {r[2]}", case)
+            ctx.branch(f"reuse:{name}:update{ui + 1}")
+            if not model or r[0] != "ok":
+                continue
+            if solver == "chol":
+                Bq, k = enc_b(b, cplx)
+                ups = []
+                for (Au, fac) in chol_updates:
+                    u = {"A": enc(Au, cplx)}
+                    if fac["U"] is not None:
+                        u["U"] = enc(fac["U"], cplx)
+                    else:
+                        u.update(U=None, l=enc(fac["l"], cplx), d=enc(fac["d"], cplx), p=fac["p"])
+                    ups.append(u)
+                req = {"m": "c05.chol_hist", "cplx": cplx, "n": n, "k": k, "trans": trans, "B": Bq, "updates": ups}
+                note = "ok"
+            else:
+                _, req, note = build_direct(ctx, kind, solver, A, b, trans, cplx, obj=s, updated=True, ldl_flag=ldl_flag)
+            if note == "boundary" or req is None:
+                ctx.skipped_boundary += 1
+                continue
+            if note == "contract":
+                ctx.disagree("reuse-contract", case, "factorisation contract violated numerically", None)
+                continue
+            reqs.append(req)
+            meta.append((case, r, cplx, float(np.linalg.cond(A))))
+
+    for h in range(nhist):
+        # ---- direct solvers ---------------------------------------------------------------
+        for name in ("diag", "qr", "lu", "sparselu", "ldl_h", "ldl_s"):
+            solver = name.split("_")[0]
+            s = {"diag": S.SolverDiagonal, "qr": S.SolverDenseQR, "lu": S.SolverDenseLU, "sparselu": S.SolverSparseLU,
+                 "ldl": S.SolverDenseLDL}[solver]()
+            nup = rng.randint(2, 3 if ctx.quick else 5)
+            cplx_obj = (name == "ldl_s") or rng.random() < 0.4
+            hist, mats = [], []
+            s._c05_sparse = solver == "sparselu"
+            for ui in range(nup):
+                kind = REUSE_KINDS[name][(ui + h) % len(REUSE_KINDS[name])]
+                n = rng.choice([2, 3, 4])
+                # dtype may change between updates (except for the LDL objects, whose cached flag is dtype related)
+                Ac = cplx_obj if solver == "ldl" else (cplx_obj if ui % 2 == 0 else not cplx_obj)
+                A = gen_matrix(rng, kind, n, Ac)
+                hist.append(kind + ("c" if Ac else "r") + str(n))
+                flag = s.hermitian if solver == "ldl" else None
+                with warnings.catch_warnings():
+                    warnings.simplefilter("ignore")
+                    s.update(sps.csc_matrix(A) if solver == "sparselu" else A)
+                mats.append(A)
+                solves_after_update(name, solver, s, A, kind, list(hist), ui, ldl_flag=flag, mats=list(mats))
+        # ---- Cholesky: indefinite -> positive definite -> indefinite ... on ONE object -----------
+        for start_fail in (True, False):
+            s = S.SolverDenseCholesky()
+            cplx_obj = rng.random() < 0.5
+            n = rng.choice([2, 3, 4])
+            nup = rng.randint(2, 3 if ctx.quick else 5)
+            hist, ups = [], []
+            for ui in range(nup):
+                fail = (ui % 2 == 0) == start_fail
+                kind = rng.choice(["hindef", "hposdiag"]) if fail else "hpd"
+                A = gen_matrix(rng, kind, n, cplx_obj)
+                hist.append(kind)
+                with warnings.catch_warnings():
+                    warnings.simplefilter("ignore")
+                    s.update(A)
+                # what scipy returned for THIS matrix (independent of the object's flags)
+                try:
+                    import scipy.linalg as spla
+                    U = spla.cholesky(A)
+                    fac = {"U": U}
+                except np.linalg.LinAlgError:
+                    bs = s.backup_solver
+                    fac = {"U": None, "l": bs.l.copy(), "d": bs.d.copy(), "p": [int(v) for v in bs.p]}
+                    offd = bs.d - np.diag(np.diag(bs.d))
+                    if np.any(offd != 0) and np.allclose(bs.d, np.diag(np.diag(bs.d))):
+                        fac = None
+                if fac is None:
+                    ctx.skipped_boundary += 1
+                    break
+                ups.append((A, fac))
+                ctx.branch("reuse:chol:" + ("fallback" if fac["U"] is None else "success") + f"@{ui + 1}")
+                solves_after_update("chol", "chol", s, A, kind, list(hist), ui, chol_updates=list(ups),
+                                    mats=[u[0] for u in ups])
+        # ---- CG with every preconditioner ---------------------------------------------------------
+        for pk in ("id", "jacobi", "sor", "ilu", "mg"):
+            if pk == "mg":
+                dom = pymoto.DomainDefinition(2, 2, 0)
+                P = it.GeometricMultigrid(dom, smooth_steps=2)
+            else:
+                P = {"id": it.Preconditioner, "jacobi": it.DampedJacobi, "sor": it.SOR, "ilu": it.ILU}[pk]()
+            s = it.CG(preconditioner=P, tol=1e-9)
+            cplx_obj = pk != "mg" and rng.random() < 0.4
+            hist, mats = [], []
+            s._c05_sparse = True
+            for ui in range(2 if ctx.quick else 3):
+                n = 9 if pk == "mg" else rng.choice([3, 4, 5])
+                A = spd(rng, n, cplx_obj)
+                mats.append(A)
+                hist.append(f"spd{n}")
+                with warnings.catch_warnings():
+                    warnings.simplefilter("ignore")
+                    s.update(sps.csc_matrix(A))
+                # excluded defect class (corpus/defects/c05_cg_sor_ilu_complex_rhs.py): real matrix + complex rhs with SOR / ILU
+                solves_after_update("cg_" + pk, "cg", s, A, "hpd", list(hist), ui, model=False,
+                                    cplx_rhs_ok=pk not in ("sor", "ilu"), mats=list(mats))
+        # ---- the solver returned by auto_determine_solver ------------------------------------------
+        for kind in ("hpd", "hindef", "csym", "gen", "diag"):
+            for sparse in (False, True):
+                cplx_obj = rng.random() < 0.4 or kind == "csym"
+                A = gen_matrix(rng, kind, 3, cplx_obj)
+                with warnings.catch_warnings():
+                    warnings.simplefilter("ignore")
+                    s = ad.auto_determine_solver(sps.csc_matrix(A) if sparse else A)
+                s._c05_sparse = sparse
+                hist, mats = [], [A]
+                for ui in range(3 if kind == "hpd" else 2):
+                    k2 = kind
+                    if kind == "hpd" and ui == 1:
+                        k2 = "hposdiag"     # Cholesky chosen for the first matrix must fall back for the second
+                    A = gen_matrix(rng, k2, rng.choice([2, 3, 4]), cplx_obj)
+                    hist.append(k2)
+                    mats.append(A)
+                    with warnings.catch_warnings():
+                        warnings.simplefilter("ignore")
+                        s.update(sps.csc_matrix(A) if sparse else A)
+                    # history_A[0] is the matrix handed to auto_determine_solver, the others the update() calls
+                    solves_after_update("auto_" + type(s).__name__, "auto", s, A, k2, list(hist), ui, model=False,
+                                        mats=list(mats))
+    outs = ctx.model(reqs)
+    for (case, r, cplx, cond), o in zip(meta, outs):
+        if "err" in o:
+            ctx.disagree("reuse", case, "ok", o["err"], "model error")
+            continue
+        xm = dec(o["ok"]["x"], cplx)
+        xi = np.asarray(r[1]).reshape(xm.shape)
+        sc = max(1.0, float(np.max(np.abs(xm)))) * max(cond, 1.0)
+        ctx.compare_close("reuse", case, xi.flatten().tolist(), xm.flatten().tolist(), rtol=1e-9 * max(cond, 1.0),
+                          atol=1e-13, scale=sc)
 
 
 def run_mg(ctx):
@@ -686,6 +1007,7 @@ def run_auto(ctx):
 def correspondence(ctx):
     np.seterr(all="ignore")
     run_direct(ctx)
+    run_reuse(ctx)
     run_auto(ctx)
     run_orth(ctx)
     run_cg(ctx)
@@ -724,21 +1046,62 @@ def search(ctx, disagreements):
     return found
 
 
+def _parse(a):
+    return None if a is None else np.array(eval(a, {"__builtins__": {}}, {})) if isinstance(a, str) else np.array(a)
+
+
 def replay(ctx, data):
+    """re-run one witness (direct / reuse / cg) on the real code with the residual-shape oracle"""
     w = data.get("witness", data)
     wit = w.get("witness", w)
     S, it, ad = _sol()
+    import pymoto
+    np.seterr(all="ignore")
     try:
-        A = np.array(eval(wit["A"], {"__builtins__": {}}, {})) if isinstance(wit.get("A"), str) else np.array(wit["A"])
-        b = np.array(eval(wit["b"], {"__builtins__": {}}, {})) if isinstance(wit.get("b"), str) else np.array(wit["b"])
+        A = _parse(wit["A"])
+        b = _parse(wit["b"])
         trans = wit.get("trans", "N")
-        solver = wit.get("solver")
-        if solver is None:
-            return {"still_failing": False, "note": "witness without solver name; run the check again"}
-        s, _, _ = build_direct(ctx, wit.get("kind", "gen"), solver, A, b, trans, bool(np.iscomplexobj(A) or np.iscomplexobj(b)))
-        x = s.solve(b.copy(), trans=trans)
-        res = float(np.linalg.norm(OP[trans](A) @ x - b) / np.linalg.norm(b))
-        bad = (x.shape != b.shape) or not (res <= 1e-9 * max(1.0, np.linalg.cond(A)))
-        return {"still_failing": bool(bad), "residual": res, "shape": list(x.shape)}
+        stream = wit.get("stream", "direct")
+        with warnings.catch_warnings():
+            warnings.simplefilter("ignore")
+            if stream == "cg":
+                pk = wit["precond"]
+                P = {"id": it.Preconditioner, "jacobi": it.DampedJacobi, "sor": it.SOR, "ilu": it.ILU}[pk]
+                P = P(w=wit["w"]) if pk in ("jacobi", "sor") else P()
+                Aarg = sps.csc_matrix(A) if wit.get("sparse") else A
+                s = it.CG(Aarg, preconditioner=P, restart=wit["restart"], tol=wit["tol"], maxit=2000)
+                x = s.solve(b.copy(), x0=_parse(wit.get("x0v")), trans=trans)
+                tol = max(1e-6, 10 * wit["tol"])
+            elif stream == "reuse":
+                name = wit["solver"]
+                mats = [_parse(m) for m in wit["history_A"]]
+                sp = bool(wit.get("sparse"))
+                conv = (lambda M: sps.csc_matrix(M)) if sp else (lambda M: M)
+                if name.startswith("auto_"):
+                    s = ad.auto_determine_solver(conv(mats[0]))
+                    mats = mats[1:]
+                elif name.startswith("cg_"):
+                    pk = name[3:]
+                    P = (it.GeometricMultigrid(pymoto.DomainDefinition(2, 2, 0), smooth_steps=2) if pk == "mg" else
+                         {"id": it.Preconditioner, "jacobi": it.DampedJacobi, "sor": it.SOR, "ilu": it.ILU}[pk]())
+                    s = it.CG(preconditioner=P, tol=1e-9)
+                else:
+                    s = {"diag": S.SolverDiagonal, "qr": S.SolverDenseQR, "lu": S.SolverDenseLU, "sparselu": S.SolverSparseLU,
+                         "ldl": S.SolverDenseLDL, "chol": S.SolverDenseCholesky}[name.split("_")[0]]()
+                for M in mats:
+                    s.update(conv(M))
+                x = s.solve(b.copy(), trans=trans)
+                tol = 1e-6 if name.startswith("cg_") else 1e-9 * max(1.0, np.linalg.cond(A))
+            else:
+                solver = wit.get("solver")
+                if solver is None:
+                    return {"still_failing": False, "note": "witness without solver name; run the check again"}
+                s, _, _ = build_direct(ctx, wit.get("kind", "gen"), solver, A, b, trans,
+                                       bool(np.iscomplexobj(A) or np.iscomplexobj(b)))
+                x = s.solve(b.copy(), trans=trans)
+                tol = 1e-9 * max(1.0, np.linalg.cond(A))
+        res = colres(A, b, x, trans) if np.all(np.isfinite(x)) else float("inf")
+        bad = (x.shape != b.shape) or not (res <= tol)
+        return {"still_failing": bool(bad), "residual": res, "shape": list(x.shape), "tolerance": tol}
     except Exception as e:  # noqa
         return {"still_failing": True, "raised": f"{type(e).__name__}: {e}"}
